@@ -178,7 +178,7 @@ def run_check(prop, tier, repo_root, only=None, verbose=False):
         return 3
     def serves(c):
         return prop in c.serves or any(prop in (v.get("__override__") or {}).get("serves", []) for v in c.variants.values())
-    keys = [k for k, c in db.contracts.items() if serves(c) and not c.assumed and not c.bounded and "::" in k
+    keys = [k for k, c in db.contracts.items() if serves(c) and not c.assumed and not (c.bounded and not c.bounded_clauses) and "::" in k
             and not c.inline_in_harness and not (c.inline and not c.ensures and not c.raises)]
     bounded = [c for c in db.contracts.values() if prop in c.serves and c.bounded]
     if only:
@@ -224,14 +224,25 @@ def run_check(prop, tier, repo_root, only=None, verbose=False):
         """re-run one function under the negated case predicate of a known finding"""
         if fn_key.startswith("lemma::"):
             return "failed"
-        res = _verify_one((repo_root, fn_key, [f"not ({case})"], prop))
-        _finalize(res)
-        if res["error"] or res["crash"]:
-            return "undecided"
-        e = res["obligations"].get(obname)
-        if e is None:
-            return "discharged"
-        return e["status"]
+        from . import smt as _smt
+        for attempt in (1, 2):
+            saved = (_smt.CVC5_TIMEOUT_S, _smt.FRESH_TIMEOUT_MS)
+            if attempt == 2:      # an unhurried second attempt: the verdict must not depend on machine load
+                _smt.CVC5_TIMEOUT_S, _smt.FRESH_TIMEOUT_MS = saved[0] * 2, saved[1] * 2
+                _smt.HARD.clear()
+            try:
+                res = _verify_one((repo_root, fn_key, [f"not ({case})"], prop))
+                _finalize(res)
+            finally:
+                _smt.CVC5_TIMEOUT_S, _smt.FRESH_TIMEOUT_MS = saved
+            if res["error"] or res["crash"]:
+                status = "undecided"
+            else:
+                e = res["obligations"].get(obname)
+                status = "discharged" if e is None else e["status"]
+            if status != "undecided":
+                return status
+        return "undecided"
 
     recheck_cache: dict = {}
 
